@@ -687,6 +687,21 @@ theorem inv_commit {P : Params} {s s' : St} (hi : Inv P s) (hs : step? P s .comm
   · simp only [PcInv]
     rw [hg]; simp
 
+/-- `Commit` on a stopped queue: acknowledged, nothing in memory, the spool untouched. -/
+theorem inv_commitStopped {P : Params} {s s' : St} (hi : Inv P s) (hs : step? P s .commitStopped = some s') :
+    Inv P s' := by
+  cases hpc : s.pc <;> simp [step?, hpc] at hs
+  rename_i m
+  subst hs
+  have hp := hi.pc
+  simp only [PcInv, hpc] at hp
+  obtain ⟨hd, hg, hok⟩ := hp
+  constructor
+  · show DiskInv P s.disk { s.g with accepted := true }
+    rw [hd, hg]
+    exact diskInv_stored m s.g.hdr s.g.body true hok
+  · simp [PcInv]
+
 theorem inv_abort {P : Params} {s s' : St} (hi : Inv P s) (hs : step? P s .abort = some s') : Inv P s' := by
   cases hpc : s.pc <;> simp [step?, hpc] at hs
   rename_i m
@@ -957,6 +972,7 @@ theorem inv_step {P : Params} {s s' : St} (c : Choice) (hi : Inv P s) (hs : step
   | restart => exact inv_restart hi hs
   | scanFault w => exact inv_forget hi (step_scanFault hs).2.2
   | openFault w => exact inv_forget hi (step_openFault hs).2.2
+  | commitStopped => exact inv_commitStopped hi hs
 
 theorem inv_reach {P : Params} {s : St} (h : Reach P s) : Inv P s := by
   induction h with
@@ -1408,6 +1424,9 @@ theorem acct_step {P : Params} {s s' : St} (c : Choice) (hi : Inv P s) (ha : Acc
     have h := (step_scanFault hs).2.2; subst h; apply acct_keep ha <;> (try rfl); left; rfl
   | openFault w =>
     have h := (step_openFault hs).2.2; subst h; apply acct_keep ha <;> (try rfl); left; rfl
+  | commitStopped =>
+    cases hpc : s.pc <;> simp [step?, hpc] at hs
+    subst hs; apply acct_keep ha <;> (try rfl); left; rfl
 
 theorem acct_reach {P : Params} {s : St} (h : Reach P s) : AcctInv s := by
   induction h with
@@ -1770,6 +1789,7 @@ theorem C02_only_dispatch_takes_slot (P : Params) (s t : St) (c : Choice) (hs : 
     split at hs <;> (cases hs; simp [Pc.holdsSlot] at ht)
   | scanFault w => have h := (step_scanFault hs).2.2; subst h; simp [Pc.holdsSlot] at ht
   | openFault w => have h := (step_openFault hs).2.2; subst h; simp [Pc.holdsSlot] at ht
+  | commitStopped => cases hpc : s.pc <;> simp [step?, hpc] at hs; cases hs; simp [Pc.holdsSlot] at ht
 
 theorem busy_cons (σ : Nat → St) (a : Nat) (l : List Nat) :
     busy σ (a :: l) = busy σ l + (if (σ a).pc.holdsSlot = true then 1 else 0) := by
@@ -2221,5 +2241,104 @@ theorem C02_skipped_entry_still_pending (P : Params) (s s1 s2 : St) (w : FaultAt
   · right
     obtain ⟨t1, t2, ha, hb, hc, _⟩ := C02_recovery_attempts P s2 m hg2.2 hm
     exact ⟨m, hm, hrm, t1, t2, ha, hb, hc⟩
+
+/-! ## Round 9: meta-data records of any size; transactions that end on a stopped queue -/
+
+/-- **load ∘ store = id for every meta-data record, irrespective of its size**: the spool model has no bound on the
+number of recipients, the length of an address or of a stored error text (`SMeta` is arbitrary; the codec is only
+used through its round-trip law).  Whatever record `storeNewMessage` (first conjunct) or a later
+`updateMetadataOnDisk` (second conjunct: on any directory that holds the header and the body) has written is
+exactly what the start-up scan followed by `openMessage` loads.  (What C02-15 breaks: a reader that is bounded while
+the writer is not.)  The tie to the code is T2: hand-made directories and real runs whose meta-data file has
+100 KiB … several MiB (thousands of recipients, long addresses, long stored error texts). -/
+theorem C02_meta_roundtrip_any_size (P : Params) (m : SMeta) :
+    (∀ h b : Bytes, P.hdrOk h = true → recoverMeta P (execOps {} (storeOps P.codec m h b)) = some m) ∧
+    (∀ (d : Disk) (hf bf : File), d.header = some hf → d.body = some bf → P.hdrOk hf.content = true →
+      recoverMeta P (execOps d (updateOps P.codec m)) = some m) := by
+  constructor
+  · intro h b hok
+    simp [execOps, storeOps, updateOps, applyOp, Disk.set, Disk.get, recoverMeta, scanMsg, openMsg, File.content,
+      P.codec.rt, hok]
+  · intro d hf bf hh hb hok
+    have hok' : P.hdrOk (hf.durable ++ hf.pending) = true := hok
+    simp [execOps, updateOps, applyOp, Disk.set, Disk.get, recoverMeta, scanMsg, openMsg, File.content,
+      P.codec.rt, hok', hh, hb]
+
+/-- The same for the concrete codec of the driver and a record with twenty thousand recipients (maddy accepts that
+many per message), each with a stored retry counter: no evaluation is needed, the law is size-agnostic. -/
+example : listCodec.parse (listCodec.ser ⟨List.range 20000, (List.range 20000).map (fun r => (r, 1)), false⟩) =
+    some ⟨List.range 20000, (List.range 20000).map (fun r => (r, 1)), false⟩ := listCodec.rt _
+
+/-- The driver decides the branch of `Queue.deliver` once per attempt (`deliverCase`): the same function. -/
+theorem C02_deliverErrs_eq_case (to : List Addr) (sc : Staged) :
+    deliverErrs to sc = errsOfCase sc (deliverCase to sc) := by
+  unfold deliverErrs deliverCase
+  simp only []
+  split
+  · rfl
+  · split
+    · rfl
+    · cases sc.commit <;> rfl
+
+/-- **Acceptance = `Commit` returned nil, and `Commit` always does**: both on a running queue (`commit`) and on a
+queue whose time wheel was already stopped (`commitStopped`: Close raced with the open transaction) the step
+acknowledges the transaction and touches nothing in the spool; there is NO step in which `Commit` refuses the
+transaction and leaves the entry written by `Body` behind (what C02-14 introduces). -/
+theorem C02_commit_acknowledges (P : Params) (s s' : St) (c : Choice) (hc : c = .commit ∨ c = .commitStopped)
+    (hs : step? P s c = some s') :
+    s'.g.accepted = true ∧ s'.disk = s.disk ∧ s'.g.aborted = s.g.aborted ∧ s'.g.orig = s.g.orig := by
+  rcases hc with hc | hc <;> subst hc <;> (cases hpc : s.pc <;> simp [step?, hpc] at hs) <;> (subst hs; simp)
+
+/-- **The spool holds a loadable entry only for acknowledged transactions or for ones whose outcome the sender never
+saw.**  In every reachable state (so after any stop or crash, before the restart): when recovery would load meta-data
+for the id, the transaction was not aborted — either `Commit` returned nil (`accepted`), or neither `Commit` nor
+`Abort` has returned yet (the process stopped before the reply: the sender saw no outcome and will try again). -/
+theorem C02_loadable_only_if_acknowledged_or_unanswered (P : Params) (s : St) (h : Reach P s) (m : SMeta)
+    (hm : recoverMeta P s.disk = some m) :
+    s.g.accepted = true ∨ (s.g.accepted = false ∧ s.g.aborted = false) := by
+  cases hab : s.g.aborted with
+  | true =>
+    have := (C02_aborted_never_delivered P s h hab).2.2
+    rw [this] at hm; cases hm
+  | false =>
+    cases hacc : s.g.accepted with
+    | true => exact .inl rfl
+    | false => exact .inr ⟨rfl, rfl⟩
+
+/-- **A transaction acknowledged by a stopped queue survives**: Start, AddRcpt, Body, Close, Commit (nil), process
+exit with any loss of un-synced data — every recipient is pending in the meta-data the next start loads, and that
+start followed by the dispatch of the slot begins an attempt with exactly that meta-data. -/
+theorem C02_commit_on_stopped_queue_survives (P : Params) (s s1 s2 : St) (keep : FKind → Nat) (h : Reach P s)
+    (h1 : step? P s .commitStopped = some s1) (h2 : step? P s1 (.crash keep) = some s2) (r : Addr)
+    (hr : r ∈ s2.g.orig) :
+    s2.g.accepted = true ∧ ∃ m, recoverMeta P s2.disk = some m ∧ r ∈ m.to ∧
+      ∃ t1 t2, step? P s2 .restart = some t1 ∧ step? P t1 .dispatch = some t2 ∧ t2.pc = .attempting m := by
+  have hr1 : Reach P s1 := .step _ h h1
+  have hr2 : Reach P s2 := .step _ hr1 h2
+  have hp := (inv_reach h).pc
+  cases hpc : s.pc <;> simp [step?, hpc] at h1
+  rename_i m0
+  simp only [PcInv, hpc] at hp
+  obtain ⟨_, hg, _⟩ := hp
+  subst h1
+  simp [step?] at h2
+  subst h2
+  have hq : s.g.quarantined = false := by rw [hg]
+  have ht : s.g.term = [] := by rw [hg]
+  refine ⟨rfl, ?_⟩
+  rcases C02_accepted_survives P _ hr2 rfl hq r hr with ht' | ⟨m, hm, hrm⟩
+  · simp [ht] at ht'
+  · obtain ⟨t1, t2, ha, hb, hc, _⟩ := C02_recovery_attempts P _ m rfl hm
+    exact ⟨m, hm, hrm, t1, t2, ha, hb, hc⟩
+
+/-- Start, AddRcpt ×2, Body, Close, Commit, process exit (all un-synced data lost), restart, dispatch. -/
+def demoStopped : List Choice :=
+  [.accept [1, 2] [83, 58, 120, 13, 10] [104, 105] false] ++ List.replicate 10 .op ++
+  [.commitStopped, .crash (fun _ => 0), .restart, .dispatch]
+
+/-- Hypotheses of `C02_commit_on_stopped_queue_survives` hold in a non-trivial run; the same transaction ended by
+`Abort` on the stopped queue leaves nothing (`demoAbort`). -/
+example : (runChoices P0 {} demoStopped).map (fun s => (s.g.accepted, s.g.aborted, s.g.attempts, s.g.orig)) =
+    some (true, false, [[1, 2]], [1, 2]) := by rfl
 
 end MaddyVerif.C02
